@@ -255,12 +255,14 @@ func NewForwardedOpenIDProvider(path string, config *Config, storage Storage, op
 // to the AuthCallbackURL, the request id should be passed as the "id" parameter.
 func NewProvider(config *Config, storage Storage, issuer func(insecure bool) (IssuerFromRequest, error), opOpts ...Option) (_ *Provider, err error) {
 	keySet := &OpenIDKeySet{storage}
+	// every provider gets its own copy: the WithCustom*Endpoint options write into it
+	endpoints := *DefaultEndpoints
 	o := &Provider{
 		config:            config,
 		storage:           storage,
 		accessTokenKeySet: keySet,
 		idTokenHinKeySet:  keySet,
-		endpoints:         DefaultEndpoints,
+		endpoints:         &endpoints,
 		timer:             make(<-chan time.Time),
 		corsOpts:          &defaultCORSOptions,
 		logger:            slog.Default(),
